@@ -10,6 +10,7 @@ import (
 	"os"
 	"os/exec"
 	"path/filepath"
+	"reflect"
 	"regexp"
 	"sort"
 	"strconv"
@@ -29,6 +30,7 @@ type encSpec struct {
 	K    int   `json:"k"`
 	Odd  bool  `json:"odd"`
 	Arch int   `json:"arch"`
+	Str  string `json:"str"` // every string field of every message is set to this value
 }
 
 type apiPool struct {
@@ -37,6 +39,7 @@ type apiPool struct {
 	Notes  []string  `json:"notes"`
 	Enc    []encSpec `json:"enc"`
 	ChainN int       `json:"chainn"` // inputs >= ChainN are chains
+	Sib    []int     `json:"sib"`    // inputs that differ from another pool input in one definition byte
 }
 
 func (ap *apiPool) input(i int) []byte {
@@ -49,7 +52,45 @@ func (ap *apiPool) file(p *Profile, e encSpec) *fit.File {
 	if e.Bad {
 		f.FileId.ProductName = "ab\xff\xfe"
 	}
+	if e.Str != "" {
+		setAllStrings(reflect.ValueOf(f), e.Str, 0)
+		if cont, _ := container(f); cont != nil {
+			setAllStrings(reflect.ValueOf(cont), e.Str, 0) // (File keeps it in an unexported field)
+		}
+	}
 	return f
+}
+
+// setAllStrings sets every string field reachable from v (whatever size the
+// profile gives it, including the fields it gives no size)
+func setAllStrings(v reflect.Value, str string, depth int) {
+	if depth > 8 {
+		return
+	}
+	switch v.Kind() {
+	case reflect.String:
+		if v.CanSet() {
+			v.SetString(str)
+		}
+	case reflect.Ptr, reflect.Interface:
+		if !v.IsNil() {
+			setAllStrings(v.Elem(), str, depth+1)
+		}
+	case reflect.Struct:
+		if v.Type().String() == "time.Time" || v.Type().Name() == "Header" {
+			return
+		}
+		for i := 0; i < v.NumField(); i++ {
+			setAllStrings(v.Field(i), str, depth+1)
+		}
+	case reflect.Slice:
+		if v.Type().Elem().Kind() == reflect.String {
+			return // arrays of strings cannot be encoded
+		}
+		for i := 0; i < v.Len(); i++ {
+			setAllStrings(v.Index(i), str, depth+1)
+		}
+	}
 }
 
 func buildAPIPool(c *Ctx, p *Profile, sch *Schema, dir string) *apiPool {
@@ -102,11 +143,44 @@ func buildAPIPool(c *Ctx, p *Profile, sch *Schema, dir string) *apiPool {
 		s.Data(1, append(u32le(0x39000000), u32le(0x39000000+off)...))
 		add(s.Bytes(), fmt.Sprintf("activity with local time %d s ahead of UTC", off))
 	}
+	// files larger than any buffer the library may keep (4 KiB read buffer,
+	// 32 / 64 KiB copy buffers), without accumulated fields
+	for _, n := range []int{1200, 9000} {
+		s := newStream(14, true)
+		s.FileId(0, 0, 4)
+		s.Def(1, 0, 20, []FieldDef{{253, 4, 0x86}, {3, 1, 2}, {4, 1, 2}, {7, 2, 0x84}}, nil)
+		for r := 0; r < n; r++ {
+			s.Data(1, append(u32le(0x38100000+uint32(r)), byte(60+rng.Intn(120)), byte(rng.Intn(200)), byte(rng.Intn(256)), byte(rng.Intn(4))))
+		}
+		add(s.Bytes(), fmt.Sprintf("long plain activity (%d records, %d bytes)", n, len(s.Bytes())))
+	}
 	add(c12Stream(rng, 0).Bytes(), "timestamp stream (activity)")
 	add(c12Stream(rng, 1).Bytes(), "timestamp stream (schedules, local times with varying offsets)")
 	g := &generator{rng: rng, p: p, sch: sch, k: defaultKnobs()}
 	for k := 0; k < c.pick(3, 10); k++ {
 		add(g.Generate().Bytes(), "generated stream")
+	}
+	// inputs that differ from a well-formed one only in the size a definition
+	// declares for a field: whatever is decided about a definition must be
+	// decided again for the next one
+	for k, fd := range [][2]FieldDef{{{3, 1, 2}, {3, 2, 2}}, {{6, 2, 0x84}, {6, 1, 0x84}}, {{6, 2, 0x84}, {6, 4, 0x84}}, {{17, 3, 2}, {17, 9, 2}}, {{2, 4, 0x85}, {2, 3, 0x85}}} {
+		for v := 0; v < 2; v++ {
+			s := newStream(12, false)
+			arch := byte(k % 2)
+			s.FileId(0, arch, 4)
+			s.Def(1, arch, 20, []FieldDef{{253, 4, 0x86}, fd[v]}, nil)
+			for r := 0; r < 3; r++ {
+				pl := wire(u32le(0x38000000+uint32(r)), arch)
+				for i := 0; i < int(fd[v].Size); i++ {
+					pl = append(pl, byte(10*r+i+1))
+				}
+				s.Data(1, pl)
+			}
+			if v == 1 {
+				ap.Sib = append(ap.Sib, ap.NDec-1, ap.NDec)
+			}
+			add(s.Bytes(), fmt.Sprintf("record field %d declared with size %d", fd[v].Num, fd[v].Size))
+		}
 	}
 	ap.ChainN = ap.NDec
 	add(append(ap.input(1), ap.input(3)...), "chain: Activity + Settings")
@@ -116,6 +190,12 @@ func buildAPIPool(c *Ctx, p *Profile, sch *Schema, dir string) *apiPool {
 	for ft, k := 0, 0; k < c.pick(8, 24); k++ {
 		ft = sch.Types[k%len(sch.Types)].T
 		ap.Enc = append(ap.Enc, encSpec{Seed: c.Seed*1000 + int64(k), FT: ft, K: k, Odd: k%2 == 0, Arch: k % 2})
+	}
+	// the same Files with every string set to a long and to a short value
+	// (fields the profile sizes generously, tightly, or not at all)
+	for k, ft := range []int{4, 4, 2, 2} {
+		ap.Enc = append(ap.Enc, encSpec{Seed: c.Seed*1000 + 500 + int64(k/2), FT: ft, K: k / 2, Arch: k % 2,
+			Str: []string{"left crank arm sensor \u20ac\u20ac", "abc"}[k%2]})
 	}
 	// an Encode that fails part-way: later calls must not see anything of it
 	ap.Enc = append(ap.Enc, encSpec{Seed: c.Seed*1000 + 777, FT: 4, K: 1, Bad: true})
@@ -422,10 +502,15 @@ func runC08(c *Ctx) {
 		histories = append(histories, hc)
 	}
 	ntlc := len(histories)
+	sib := map[int]bool{}
+	for _, i := range ap.Sib {
+		sib[i] = true
+	}
 	// every ordered pair of pool calls: any dependence of one call on one earlier call
 	for _, a := range allCalls {
 		for _, b := range allCalls {
-			if c.thorough() || (a.Idx+b.Idx)%2 == 0 || a.API == "encode" && b.API == "encode" {
+			sibPair := a.API != "encode" && b.API != "encode" && sib[a.Idx] && sib[b.Idx]
+			if c.thorough() || (a.Idx+b.Idx)%2 == 0 || a.API == "encode" && b.API == "encode" || sibPair {
 				histories = append(histories, []histCall{a, b})
 			}
 		}
